@@ -42,6 +42,9 @@ func (w *worker) serverConfig(kind string) (*tls.Config, *x509.Certificate) {
 	switch kind {
 	case "s0":
 		return &tls.Config{Certificates: []tls.Certificate{w.mat.srv0}, ClientAuth: tls.RequestClientCert, MinVersion: tls.VersionTLS10}, w.mat.srv0Leaf
+	case "s3":
+		// the pinned self-signed server certificate of the root-kinds sub-workload
+		return &tls.Config{Certificates: []tls.Certificate{w.mat.pinned}, ClientAuth: tls.RequestClientCert, MinVersion: tls.VersionTLS10}, w.mat.pinnedCert
 	case "s2":
 		return &tls.Config{Certificates: []tls.Certificate{w.mat.srv2}, ClientAuth: tls.RequestClientCert, MinVersion: tls.VersionTLS10}, w.mat.srv2Leaf
 	case "legacy":
@@ -94,7 +97,7 @@ func (w *worker) startServer(kind string) error {
 }
 
 func (w *worker) startServers() error {
-	for _, k := range serverKinds {
+	for _, k := range append(append([]string{}, serverKinds...), "s3") { // s3 serves the root-kinds sub-workload only
 		if err := w.startServer(k); err != nil {
 			return err
 		}
@@ -187,7 +190,13 @@ func (w *worker) get(s *server, hc *http.Client) (ok bool, cerr error, st tls.Co
 // via "" = TLSClientAuth + tls.Dial; via "TLSClient" = an HTTPS GET through the client TLSClient returns.
 func (w *worker) handshake(p Point, sk string, reject bool, via string) {
 	m := w.m
+	if w.aborted {
+		return
+	}
 	fs, classes, judged := w.handshakeAttempt(p, sk, reject, via, 0)
+	if len(fs) > 0 && w.materialGone() {
+		return
+	}
 	if judged {
 		m.Eval(1)
 	}
@@ -213,7 +222,9 @@ func (w *worker) handshake(p Point, sk string, reject bool, via string) {
 			}
 			return false
 		})
-		m.Violate(sig, detail, &Case{Point: &mp, Server: sk, Reject: reject, Via: via, NameVariant: nameClass(mp.ServerName) != "", Encoding: isEncodingFile(mp.CertFile) || isEncodingFile(mp.KeyFile)})
+		c := caseFor(mp)
+		c.Server, c.Reject, c.Via = sk, reject, via
+		m.Violate(sig, detail, c)
 	}
 }
 
@@ -347,6 +358,17 @@ func (w *worker) handshakeAttempt(p Point, sk string, reject bool, via string, a
 		}
 		violate(sig, "handshake with listener %s succeeded (version %#x) although it must fail: %s; mode %s, roots %s, name %q, chain error: %v, full error: %v",
 			sk, st.Version, why, mode, e.rootsClass, name, chainErr, fullErr)
+	case !ok && wantOK && attempt < 2:
+		// The configuration is deterministic, so a refusal that it causes shows again. One that does not (a reset
+		// or a broken pipe on a loaded machine, a listener that was being replaced) is a transient of the harness:
+		// it is raised only when a second, independent attempt ends the same way.
+		rfs, rclasses, rjudged := w.handshakeAttempt(p, sk, reject, via, 2)
+		for _, rf := range rfs {
+			if strings.HasPrefix(rf.sig, "hs-refused-valid-server/") {
+				return rfs, append(rclasses, pfx+"-refusal-confirmed-by-retry"), rjudged
+			}
+		}
+		return rfs, append(rclasses, pfx+"-refusal-not-reproduced(transient, not judged)"), rjudged
 	case !ok && wantOK:
 		violate("hs-refused-valid-server/"+mode+"/"+e.rootsKind, "handshake with listener %s failed with %q although the server certificate verifies against the supplied roots (%s) and name %q (server side: %v)",
 			sk, cerr, e.rootsClass, name, rec.err)
